@@ -560,7 +560,7 @@ class Inliner:
                     self.log.append((fn.qname, h.qname))
                     return body or [ast.copy_location(ast.Pass(), s)]
                 self.kept_calls.add(h.qname)
-            return None
+                return None
         if isinstance(s, ast.Assign) and isinstance(s.value, ast.Call) and len(s.targets) == 1 and isinstance(s.targets[0], ast.Name):
             h = self.target(r, s.value)
             if h is not None and self.expr_form(h) is None:
@@ -570,6 +570,32 @@ class Inliner:
                     return body
                 self.kept_calls.add(h.qname)
                 return None
+        # `[helper(x) for x in xs]` with a multi-statement helper: written out as the loop it abbreviates, so that the
+        # helper can be inlined per iteration
+        if isinstance(s, (ast.Return, ast.Assign)) and isinstance(s.value, ast.ListComp) and len(s.value.generators) == 1:
+            comp = s.value
+            g = comp.generators[0]
+            single_target = isinstance(s, ast.Return) or (len(s.targets) == 1 and isinstance(s.targets[0], ast.Name))
+            if single_target and not g.is_async and self._first_hoistable(r, comp.elt) is not None and not any(self._first_hoistable(r, c) for c in g.ifs):
+                if isinstance(s, ast.Return):
+                    self.counter += 1
+                    name = f"collected__h{self.counter}"
+                else:
+                    name = s.targets[0].id
+                init = ast.copy_location(ast.Assign(targets=[ast.Name(id=name, ctx=ast.Store())], value=ast.List(elts=[], ctx=ast.Load())), s)
+                app = ast.copy_location(ast.Expr(value=ast.Call(func=ast.Attribute(value=ast.Name(id=name, ctx=ast.Load()), attr="append", ctx=ast.Load()), args=[comp.elt], keywords=[])), s)
+                body: list[ast.stmt] = [app]
+                for c in reversed(g.ifs):
+                    body = [ast.copy_location(ast.If(test=c, body=body, orelse=[]), s)]
+                loop = ast.copy_location(ast.For(target=g.target, iter=g.iter, body=body, orelse=[]), s)
+                _set_ctx(loop.target, ast.Store())
+                out = [init, loop]
+                if isinstance(s, ast.Return):
+                    out.append(ast.copy_location(ast.Return(value=ast.Name(id=name, ctx=ast.Load())), s))
+                for st in out:
+                    ast.fix_missing_locations(st)
+                self.log.append((fn.qname, "<comprehension written out as loop>"))
+                return out
         # `if A and helper(): body` (no else)  ==  `if A: if helper(): body` -- makes the call hoistable under its guard
         if isinstance(s, ast.If) and not s.orelse and isinstance(s.test, ast.BoolOp) and isinstance(s.test.op, ast.And):
             vals = s.test.values
@@ -648,6 +674,17 @@ class Inliner:
             return None
 
         return walk(e)
+
+
+def _set_ctx(t, ctx):
+    if isinstance(t, (ast.Name, ast.Attribute, ast.Subscript, ast.Starred)):
+        t.ctx = ctx
+    if isinstance(t, (ast.Tuple, ast.List)):
+        t.ctx = ctx
+        for e in t.elts:
+            _set_ctx(e, ctx)
+    if isinstance(t, ast.Starred):
+        _set_ctx(t.value, ctx)
 
 
 def _in_loop_or_comp(fn_node, name: str) -> bool:
@@ -733,7 +770,7 @@ def inline_program(prog: Program) -> dict:
     for q in touched:
         ast.fix_missing_locations(prog.functions[q].node)
         _renumber(prog.functions[q])
-    inlined_helpers = {h for _, h in inl.log}
+    inlined_helpers = {h for _, h in inl.log if not h.startswith("<")}
     # a helper stays live while any call or reference to it remains anywhere in the program
     kept: set[str] = set()
     by_name: dict[str, list[str]] = {}
